@@ -28,7 +28,7 @@ From Soy Require Import Model.Bytes Model.Num Model.Values Model.Outcome Model.A
   Model.Escape Model.Token Model.ExprParser Model.ExprTrans Spec.Expr Spec.ExprSyntax Generated.Tables
   Proofs.EvalProofs Proofs.EvalFuncProofs Proofs.EvalMainProofs Proofs.ExprParserRules Proofs.ExprParserProofs Proofs.EvalSyntaxProofs Proofs.EvalTotalProofs.
 From Soy Require Import Model.AstPrint Model.Lexer Model.Parser Proofs.LexPrintMain Proofs.LexParseText Proofs.EvalTextProofs Proofs.InterpPos.
-From Soy Require Proofs.FloatRoundSpec Proofs.FloatFlocq Proofs.FloatFlocqDiv Proofs.FloatRtMain Proofs.FloatRtPrint.
+From Soy Require Proofs.FloatRoundSpec Proofs.FloatFlocq Proofs.FloatFlocqDiv Proofs.FloatRtMain Proofs.FloatRtPrint Proofs.FloatRtLex.
 Open Scope N_scope.
 
 (* ---- the evaluator ---- *)
@@ -295,6 +295,12 @@ Print Assumptions C01_float_text_roundtrip.
 Theorem C01_float_literal_condition : forall f, float_ok f <-> FloatRtMain.fl_in_window f.
 Proof. exact FloatRtPrint.float_ok_iff_window. Qed.
 Print Assumptions C01_float_literal_condition.
+
+(* and lex_ok's float clause (the printed text is one float item for the scanner) holds for every such float: neither
+   syntax_ok nor lex_ok of C01_text_string_to_value restricts the floats of an expression beyond their shape *)
+Theorem C01_float_lex_ok : forall p f, float_ok f -> LexPrintMain.lex_ok (NFloat p f).
+Proof. intros p f [Hn _]. exact (FloatRtLex.lex_ok_float p f Hn). Qed.
+Print Assumptions C01_float_lex_ok.
 
 (* ---- non-vacuity: concrete instances evaluated by both sides ---- *)
 Definition ex_env : list (bstr * value) :=
